@@ -594,6 +594,10 @@ def r07_7(chk, sht):
             phi = e.value
         if e.kind == "store" and e.target.key() == "self.ntheta" and any("ntheta" in c.key() and pol for c, pol in e.guards):
             ntheta = e.value
+        if e.kind == "store" and e.target.key() == "self.ntheta" and e.value.as_atom() and e.value.as_atom()[0] == "ite" \
+                and "ntheta" in e.value.as_atom()[1].key() and e.value.as_atom()[1].as_atom() and e.value.as_atom()[1].as_atom()[0] == "is":
+            # self.ntheta = <default> if ntheta is None else ntheta
+            ntheta = e.value.as_atom()[2]
     nphi = P.atom(("attr", P.name("self"), "nphi"))
     ar = P.atom(("call", P.name("numpy.arange"), (P.const(0), nphi)))
     ar1 = P.atom(("call", P.name("numpy.arange"), (nphi,)))
@@ -601,6 +605,15 @@ def r07_7(chk, sht):
            (phi == ar * 2 * PI / nphi or phi == ar1 * 2 * PI / nphi), found=str(phi))
     # default nphi: helper(2 L + 1) with a helper that never returns less than it is asked for  =>  nphi >= 2 L + 1
     nst = [e for e in ev.events if e.kind == "store" and e.target.key() == "self.nphi" and any("nphi" in c.key() and pol for c, pol in e.guards)]
+    if not nst:
+        # self.nphi = <default> if nphi is None else nphi
+        import copy as _copy
+        for e in ev.events:
+            va = e.value.as_atom() if e.kind == "store" and e.target.key() == "self.nphi" else None
+            if va and va[0] == "ite" and "nphi" in va[1].key() and va[1].as_atom() and va[1].as_atom()[0] == "is":
+                e2 = _copy.copy(e)
+                e2.value = va[2]
+                nst = [e2]
     if nst:
         from ..lowerbound import returns_at_least_argument
         va = nst[0].value.as_atom()
